@@ -65,3 +65,7 @@ p["streams"] += [S("sysk", 4000, 30000)]
 p["rule"] += (" | sysk (see C11): overlapped pairs on Vary: Origin resources with the echoing origin; oracle for C12: in a case with an overlapped pair no response outside C11's listed classes "
               "carries the echo of another resource's request")
 p["trivial_labels"] = list(p.get("trivial_labels", [])) + ["rules-rejected"]
+# ... and stream fresh (the public Cache.Get on prepared entries, with the key held by "another request" in part of the cases): a fifth of
+# the lookups run under a request context that is cancelled already; what the lookup returns and does to the lock table must not depend on it
+p["streams"] += [S("fresh", 10000, 100000)]
+p["rule"] += " | fresh (see C08): public Cache.Get on prepared entries, key held by another request in part of the cases, a fifth of the lookups under a cancelled request context (seeded change C12-m8)"
